@@ -62,6 +62,7 @@ func c03Run(c *hx.Ctx) {
 	}
 	jlsKernels(c, n)
 	jlsRunSegments(c, 2*n)
+	jlsScans(c, n/2)
 	jlsGolomb(c, 5*n)
 
 	// boundary cases first: the design's witness and its relatives
